@@ -558,6 +558,8 @@ def cfi_shapes(tier):
                   [ins("b1", 1, "cfiraw:mov ecx, 1;.cfi_adjust_cfa_offset 8;jmp s0;.Lr:;.cfi_adjust_cfa_offset -8")],
                   [ins("b1", 1, "cfiraw:mov ecx, 1;.cfi_adjust_cfa_offset 8;mov ecx, 2;.Lr:;.cfi_adjust_cfa_offset -8")],
                   [ins("b1", 3, "cfiraw:mov ecx, 1;.cfi_adjust_cfa_offset 8;mov ecx, 2;.Lr:;.cfi_adjust_cfa_offset -8")],
+                  # data behind the last instruction of the section's last procedure
+                  [ins("b2", 2, "byte")], [ins("b2", 2, "trail_label_data")],
                   # a directive between a block-ending instruction and the label that ends the patch
                   [ins("b1", 1, "cfiraw:.cfi_remember_state;mov ecx, 1;.cfi_adjust_cfa_offset 8;jmp s0;.cfi_restore_state;.Lr:")],
                   [ins("b1", 1, "cfiraw:mov ecx, 1;.cfi_adjust_cfa_offset 8;jmp s0;.cfi_adjust_cfa_offset -8;.Lr:")]]
